@@ -146,10 +146,10 @@ GENERATORS = {'graph': 'spec/graph/hbgen.py'}
 # a second generator run after the extractor: `<script> <work dir> <dispenso source dir>` writes a further Orders module
 # for orders that are reached through a helper function (pool: detail::consumeLoad(), PoolWakeState::totalSleeping())
 POST_GENERATORS = {'pool': 'spec/pool/hbgen.py'}
-# STRICT configurations: exactly the declared orders.  The pool's other configurations count the load inside
-# detail::consumeLoad() (relaxed + a TSan annotation, "semantically equivalent to memory_order_consume") as a consume load,
-# i.e. they grant the dependency ordering the comment in thread_pool.h claims; the strict ones do not, and a RaceFree
-# violation on the PoolWakeState object there is the known finding `model:pool:consume-load` (anything else is reported)
+# STRICT configurations: exactly the declared orders.  The pool's other configurations would count a RELAXED load inside
+# detail::consumeLoad() as a consume load (DepOrd = TRUE: the dependency ordering that the old comment in thread_pool.h
+# claimed); the strict ones do not.  They found the race on the PoolWakeState object that /repo fix 2885c35 repaired
+# (consumeLoad is an acquire load now) and report it again, signature `model:pool:consume-load`, if the load is ever weakened
 STRICT = {'pool': [('MC_hbx5.cfg', 'declared orders only: external placed submitter racing resize 0->1', 'quick'),
                    ('MC_hbx4.cfg', 'declared orders only: external fq + ring-bulk submitter racing resize 0->1', 'thorough'),
                    ('MC_hbx6.cfg', 'declared orders only: setSignalingWake racing a submitter', 'thorough')]}
